@@ -208,6 +208,8 @@ fn track_assign<'a>(expr: &ast::Expr<'a>, state: &mut AssignmentTracker<'a>) {
         ast::Expr::Var(var) => state.assign(var.id),
         ast::Expr::List(list) => list.items.iter().for_each(|x| track_assign(x, state)),
         ast::Expr::Tuple(tuple) => tuple.items.iter().for_each(|x| track_assign(x, state)),
+        // `{% set ns.attr = ... %}` reads the namespace it assigns into
+        ast::Expr::GetAttr(attr) => tracker_visit_expr(&attr.expr, state),
         _ => {}
     }
 }
@@ -221,11 +223,13 @@ fn track_walk<'a>(node: &ast::Stmt<'a>, state: &mut AssignmentTracker<'a>) {
         ast::Stmt::EmitExpr(expr) => tracker_visit_expr(&expr.expr, state),
         ast::Stmt::EmitRaw(_) => {}
         ast::Stmt::ForLoop(stmt) => {
-            state.push();
-            state.assign("loop");
+            // the iterable is evaluated before the loop starts and the filter
+            // runs in a pass that binds the target but has no `loop` variable
             tracker_visit_expr(&stmt.iter, state);
+            state.push();
             track_assign(&stmt.target, state);
             tracker_visit_expr_opt(&stmt.filter_expr, state);
+            state.assign("loop");
             stmt.body.iter().for_each(|x| track_walk(x, state));
             state.pop();
             state.push();
